@@ -12,10 +12,19 @@
 (* line for the driver.  In -simulate mode (thorough tier) the same Next   *)
 (* grows random deeper trees: the "any" pool then also offers skeletons    *)
 (* with holes as long as the tree is small.                                *)
+(*                                                                         *)
+(* Round 3.  (i) The representation of the constants is an input dimension *)
+(* (C14_CSem!Reps): once a tree is complete, a further step re-emits it    *)
+(* with its int / float constants as numpy scalars -- same model value,    *)
+(* same verdict rule, another object for the printer.  (ii) x**1 is        *)
+(* printed as its base: an explicit Power(_, 1) node is a transparent      *)
+(* wrapper that hides the base's node kind from its parent; the "w1" hole  *)
+(* puts such a wrapper around every depth-1 composite in every operand     *)
+(* position of every operator.                                             *)
 (***************************************************************************)
 EXTENDS C14_CModel, Json
 CONSTANT Tier          \* "quick" | "thorough" | "sim"
-VARIABLES tree, frag
+VARIABLES tree, frag, rep
 
 x == V("x")  y == V("y")  z == V("z")
 ff == V("f") gg == V("g") tt == V("t") oo == V("o")
@@ -26,6 +35,7 @@ CP(a, p) == CSE(a, p, "pymbolic_eval")
 HoleT(ty) == [t |-> "Hole", ty |-> ty]
 A == HoleT("any")  L == HoleT("leaf")  Cn == HoleT("cond")  Ex == HoleT("exp")
 P2 == HoleT("pow2") L2 == HoleT("leaf2")
+W1 == HoleT("w1")
 
 \* ---- integer fragment ---------------------------------------------------
 IntLeaves == { x, y, z, KI(2), M1 }
@@ -104,6 +114,8 @@ PoolFor(ty, fr, small) ==
       [] ty = "exp"  -> IF fr = "int" THEN { KI(0), KI(1), KI(2), KI(3), y }
                         ELSE { KI(0), KI(1), KI(2), KI(3), M1, KI(-2) }
       \* divisors that are exact powers of two in every float environment
+      \* x**1 around every depth-1 composite (printed as the composite itself)
+      [] ty = "w1"   -> { B("Power", s, KI(1)) : s \in D1(fr) }
       [] ty = "pow2" -> { z, KI(2), Half, KI(4), N("Product", << z, z >>), B("Quotient", KI(1), z),
                           B("Power", z, KI(2)) }
 
@@ -151,6 +163,16 @@ Roots(fr) ==
         THEN { B(k, A, N("Product", << N("Sum", << x, y >>), N("Sum", << z, L2 >>) >>)) : k \in {"Remainder", "FloorDiv"} }
              \cup { B("Remainder", L2, N("Product", << B("FloorDiv", x, L2), B("FloorDiv", y, KI(2)) >>)) }
         ELSE { B("Quotient", A, N("Product", << N("Sum", << z, z >>), N("Sum", << KI(2), KI(2) >>) >>)) })
+  \* the transparent wrapper x**1 in every operand position: whatever the parent
+  \* decides by looking at the operand (its node kind, its precedence) it must decide
+  \* for the wrapped composite, which is what ends up in the text
+  \cup UNION { { N(k, << L2, W1 >>), N(k, << W1, L2 >>) } : k \in Nary(fr) }
+  \cup { Cmp(L2, "<", W1), Cmp(W1, "==", L2), U("LogNot", W1), B("Power", W1, Ex),
+         N("Sum", << L2, N("Product", << M1, W1 >>) >>), IfE(Cn, W1, L2), Call(gg, << W1 >>), CSE0(W1) }
+  \cup (IF fr = "int"
+        THEN UNION { { B(k, L2, W1), B(k, W1, L2) } : k \in {"FloorDiv", "Remainder", "LShift", "RShift"} }
+             \cup { U("BitNot", W1), B("Sub", tt, W1) }
+        ELSE { B("Quotient", L2, W1), B("Quotient", W1, L2) })
   \cup Leaves(fr)
   \cup (IF fr = "int"
         THEN UNION { { B(k, p[1], p[2]) : p \in Pairs(k) } : k \in {"FloorDiv", "Remainder", "LShift", "RShift"} }
@@ -160,13 +182,27 @@ Roots(fr) ==
         ELSE { N(k, << A, A, L >>) : k \in {"Sum", "Product"} }
              \cup { IfE(Cn, A, A) })
 
-Init == frag \in {"int", "flt"} /\ tree \in Roots(frag)
-Next == /\ NHoles(tree) > 0
-        /\ \E s \in PoolFor(FirstHoleTy(tree), frag, Size(tree) <= 9) : tree' = FillFirst(tree, s)
-        /\ UNCHANGED frag
+\* the representations a complete tree is driven in: quick keeps the numpy ones to
+\* the small trees (every parent kind x position x constant occurs among them), the
+\* other tiers take all of RepsFor
+RepsIn(e) == IF Tier = "quick"
+             THEN { r \in RepsFor(e) : \/ r = "py"
+                                       \/ (r = "np64" /\ Size(e) <= 6)
+                                       \/ (r = "np32" /\ Size(e) <= 5) }
+             ELSE RepsFor(e)
 
 Complete == NHoles(tree) = 0
 Good == Complete /\ CExpressible(tree, frag)
+
+Init == frag \in {"int", "flt"} /\ tree \in Roots(frag) /\ rep = "py"
+Fill == /\ NHoles(tree) > 0
+        /\ \E s \in PoolFor(FirstHoleTy(tree), frag, Size(tree) <= 9) : tree' = FillFirst(tree, s)
+        /\ UNCHANGED << frag, rep >>
+\* the same tree once more, its constants built as numpy scalars
+Represent == /\ Good /\ rep = "py"
+             /\ \E r \in RepsIn(tree) \ {"py"} : rep' = r
+             /\ UNCHANGED << tree, frag >>
+Next == Fill \/ Represent
 
 \* anti-vacuity of the fragment definition: every emitted tree is judged (has a
 \* numeric, in-range meaning) in at least one environment -- or is out of range in
@@ -180,7 +216,7 @@ Judged(e, fr) == \E i \in 1..Len(EnvsOf(fr)) :
 \* contradicts Eval -- a design-level failure (never an error of the run: the
 \* A-layer does not decide, DESIGN 3.2; the judge reports prediction vs program as drift)
 Emit == Good => LET pred == APred(tree, frag) IN
-                PrintT(ToJson([frag |-> frag, e |-> tree, j |-> IF Judged(tree, frag) THEN 1 ELSE 0,
+                PrintT(ToJson([frag |-> frag, e |-> tree, rep |-> rep, j |-> IF Judged(tree, frag) THEN 1 ELSE 0,
                                a |-> pred, ar |-> ARefutes(tree, frag, pred)]))
 
 \* sanity of the C grammar / semantics on hand-picked points (ISO C 6.5)
@@ -197,6 +233,11 @@ ASSUME CV(<< Pt("!"), Idt("x"), Pt("||"), Idt("y"), Pt("&&"), Numt(IntV(0)) >>) 
 ASSUME CV(<< Pt("~"), Idt("x"), Pt("+"), Numt(IntV(1)), Pt("<<"), Numt(IntV(2)) >>) = IntV(-24)
 ASSUME CV(<< Idt("f"), Pt("("), Idt("x"), Pt(","), Idt("t"), Pt("["), Numt(IntV(1)), Pt("]"), Pt(")") >>) = IntV(73)
 
+\* a constant spelled as a constructor call (what repr() of a numpy scalar looks like) is
+\* not a C expression: the grammar must reject it, whatever the value
+ASSUME CPredictA(CParse(<< Idt("np"), Pt("."), Idt("float64"), Pt("("), Numt(FltV(5, 2)), Pt(")") >>),
+                 "flt", FltEnvs[1]) = CBad
+
 \* sanity of the typing discipline on hand-picked points (a wrong CTy would make the
 \* judge skip, or worse judge, the wrong cases)
 ASSUME CTy(B("Quotient", KI(1), KI(2)), "flt") = "bad"
@@ -210,5 +251,9 @@ ASSUME CTy(N("BitAnd", << x, Cmp(x, "<", Half) >>), "int") = "long"
 ASSUME CTy(N("Min", << x, y >>), "int") = "bad"
 ASSUME CTy(K(BoolV(TRUE)), "int") = "bad"
 ASSUME ~CExpressible(N("Sum", << x, tt >>), "int")
+\* the representation dimension: only trees with numeric constants have more than one
+ASSUME RepsFor(N("Sum", << x, y >>)) = {"py"}
+ASSUME RepsFor(CSE0(N("Sum", << x, Half >>))) = Reps
+ASSUME RepsFor(B("Power", B("Remainder", x, y), KI(1))) = Reps
 ASSUME PrintT(ToJson([intenvs |-> IntEnvs, fltenvs |-> FltEnvs]))
 =============================================================================
